@@ -21,6 +21,8 @@ Static clauses decided (necessary conditions of C06):
           parameter (and as it is stored): for datetime and date the rendering in SQLiteValue.__str__ is the same function of the
           value as py2sql of the SQLite converter of that type (datetime2timestamp on both sides -- it always writes the
           microseconds; str(date) == date.isoformat()).
+ DISPATCH in every isinstance dispatch chain of the builders, Value classes and converters a class is tested before its base classes
+          (datetime before date, bool before int): the branch written for the specific type is reachable for it.
  IDENT    identifiers reach the statement only through quote_name/compound_name: in every method of the SQLBuilder
           hierarchy a table/alias/column name (tracked by forward dataflow from the identifier parameters) is never used as
           output text unquoted; DBAPIProvider.quote_name doubles the quote character; the DDL text functions of dbschema.py
@@ -60,6 +62,7 @@ def raises(body):
 def run(ctx):
     repo, cg = ctx.repo, ctx.cg
     styles_rule(ctx); percent_rule(ctx); like_rule(ctx); literal_rule(ctx); littwin_rule(ctx); ident_rule(ctx)
+    dispatch_rule(ctx, 'C06', ('pony/orm/sqlbuilding.py', 'pony/orm/dbproviders/', 'pony/orm/dbapiprovider.py'))
     # a value (string index, attribute name given to getattr) that is rendered INTO the statement text denotes the program's value only as long as the
     # cached translation is redone when the value changes: the fixed-parameter rules of C05 are necessary conditions of C06's inline-literal clause
     from . import C05
@@ -227,6 +230,30 @@ def _canon(e, var, typ):
     known = ('datetime2timestamp(v)', 'v.isoformat()', "v.isoformat(' ')", 'str(v)')
     if t in known or t.startswith('v.strftime('): return t
     return None
+
+
+def dispatch_rule(ctx, prefix, scope):
+    """type dispatch by isinstance chains (Value.__str__, converters' validate / py2sql / sql2py, the builders): a test for a class must not be
+    answered already by an earlier test for one of its base classes (datetime after date, bool after int, a repo class after its base) -- the
+    branch written for the specific type would be dead and the value rendered / converted as the general one"""
+    from ..q import shadowed_isinstance_tests
+    repo, cg = ctx.repo, ctx.cg
+    nt = 0
+    for f in sorted(repo.rule_funcs(), key=lambda f_: f_.full):
+        if not any(f.mod.rel.startswith(s_) for s_ in scope): continue
+        tests = [c for c in ast.walk(f.node) if isinstance(c, ast.Call) and dotted(c.func) == 'isinstance' and len(c.args) == 2 and isinstance(c.args[0], ast.Name)]
+        if len(tests) < 2: continue
+        repo.consulted.add(f.mod.name)
+        g = cg.cfg(f)
+        dead = shadowed_isinstance_tests(repo, f.mod, g, f.node)
+        nt += len(tests)
+        for t, target, earlier in dead:
+            ctx.ob(prefix + '-DISPATCH.specific-type-is-tested-before-its-base', f, t.ast, False,
+                   'the branch `%s` can never be taken for a %s: `%s` has answered first (a %s is one of those), so the value is handled as the general type '
+                   '-- for SQLite literals: a datetime spelt as a date-like text that no stored value equals' % (norm(t.ast)[:60], target, earlier[:60], target), node=t.ast)
+        if not dead:
+            ctx.ob(prefix + '-DISPATCH.specific-type-is-tested-before-its-base', f, f.node, True, '')
+    ctx.floor(prefix + '-DISPATCH', nt, 40, 'isinstance tests in dispatch chains')
 
 
 def littwin_rule(ctx):
@@ -458,6 +485,12 @@ def delegated(x, pm, f):
 
 
 MUTANTS = [
+    dict(id='C06-disp1', file='pony/orm/dbproviders/sqlite.py', fn='SQLiteValue.__str__', old="        if isinstance(value, datetime.datetime):\n            return self.quote_str(datetime2timestamp(value))\n        if isinstance(value, datetime.date):\n            return self.quote_str(str(value))\n",
+         new="        if isinstance(value, datetime.date):\n            return self.quote_str(str(value))\n        if isinstance(value, datetime.datetime):\n            return self.quote_str(datetime2timestamp(value))\n", expect='C06-DISPATCH'),
+    dict(id='C06-disp2', file='pony/orm/sqlbuilding.py', fn='Value.__str__', old="        if isinstance(value, bool):\n            return value and '1' or '0'\n        if isinstance(value, str):\n            return self.quote_str(value)\n",
+         new="        if isinstance(value, str):\n            return self.quote_str(value)\n        if isinstance(value, (int, float, Decimal)):\n            return str(value)\n        if isinstance(value, bool):\n            return value and '1' or '0'\n", expect='C06-DISPATCH'),
+    dict(id='C06-disp3', file='pony/orm/sqlbuilding.py', fn='Value.__str__', old="        if isinstance(value, bool):\n            return value and '1' or '0'\n        if isinstance(value, str):\n            return self.quote_str(value)\n",
+         new="        if isinstance(value, str):\n            return self.quote_str(value)\n        if isinstance(value, bool):\n            return value and '1' or '0'\n", benign=True),
     dict(id='C06-td', file='pony/orm/dbproviders/sqlite.py', fn='SQLiteTimedeltaConverter.py2sql', old="        return val.days + (val.seconds + val.microseconds / 1000000.0) / 86400.0", new="        return val.days + val.seconds / 86400.0", expect='C06-LITTWIN.interval-parameter'),
     dict(id='C06-q1', file='pony/orm/dbapiprovider.py', fn='DBAPIProvider.quote_name', old="            return quote_char + name + quote_char\n        return '.'.join(provider.quote_name(item) for item in name)", new="        else:\n            name = (quote_char + '.' + quote_char).join(name)\n        return quote_char + name + quote_char", expect='C06-IDENT.quote_name-doubles-on-every-path'),
     dict(id='C06-lt1', file='pony/orm/dbproviders/sqlite.py', fn='SQLiteValue.__str__', old="return self.quote_str(datetime2timestamp(value))", new="return self.quote_str(value.isoformat(' '))", expect='C06-LITTWIN'),
